@@ -321,6 +321,7 @@ func verifH_FinishCli() {
 	var finalCode int32
 	sends, halfClosed := 0, false
 	deadline := false
+	realHeaders := false
 	for i := 0; i < nops; i++ {
 		sendsBefore := b.snd.msgs
 		switch verifChoice("op", 7) {
@@ -334,6 +335,8 @@ func verifH_FinishCli() {
 			if wasDone || hadHeaders {
 				verifCover("late-headers")
 				verifAssert(len(b.hdrTarget) == len(before), "C02+C07.late-headers-frame-has-no-effect")
+			} else {
+				realHeaders = true // the handler's headers were delivered while the RPC was live
 			}
 		case 0:
 			err := st.SendMsg(&wrapperspb.BytesValue{Value: []byte{1}})
@@ -381,7 +384,12 @@ func verifH_FinishCli() {
 			}
 		case 4:
 			if finishedBy != 0 || st.gotHeaders {
-				_, _ = st.Header()
+				h, herr := st.Header()
+				if realHeaders {
+					// headers that were delivered stay readable, whatever ended the RPC afterwards
+					verifCover("header-after-delivery")
+					verifAssert(herr == nil && len(h["hk"]) == 1, "C02+C07.delivered-headers-stay-readable")
+				}
 			}
 		case 5:
 			t := st.Trailer()
@@ -523,4 +531,54 @@ func verifH_CreditReturn() {
 	} else {
 		verifAssert(nupd == 0, "C06.srv-no-credit-for-nothing")
 	}
+}
+
+// S-CLI-BLOCKED (C04 C05 C07 C14): a caller blocked in SendMsg on a zero window,
+// or in RecvMsg on an empty queue, is released - with a non-OK result - by its
+// own context ending, by the peer's close frame, and by the tunnel going away.
+func verifH_CliBlocked() {
+	car := vNewCliCarrier(context.Background())
+	c := vNewCliChannel(car, 0, false)
+	c.settings.InitialWindowSize = 0 // the peer grants nothing
+	cctx, ccancel := context.WithCancel(context.Background())
+	st, err := c.newStream(cctx, true, true, "svc/m")
+	verifAssume(err == nil)
+	phase := verifChoice("phase", 2)
+	var cerr error
+	returned := false
+	verifGo("caller", func() {
+		if phase == 0 {
+			cerr = st.SendMsg(&wrapperspb.BytesValue{Value: []byte{1, 2, 3}})
+		} else {
+			cerr = st.RecvMsg(&wrapperspb.BytesValue{})
+		}
+		returned = true
+	})
+	verifDrain()
+	verifAssert(!returned, "C05.cli-caller-is-blocked-without-credit-or-data")
+	verifCover("caller-blocked")
+	event := verifChoice("event", 4)
+	switch event {
+	case 0:
+		ccancel() // the caller's context is cancelled / its deadline expires
+	case 1:
+		st.acceptServerFrame(&tunnelpb.ServerToClient_CloseStream{CloseStream: &tunnelpb.CloseStream{Status: &spb.Status{Code: 5, Message: "gone"}}})
+	case 2:
+		st.acceptServerFrame(&tunnelpb.ServerToClient_CloseStream{CloseStream: &tunnelpb.CloseStream{}}) // the handler returned OK early
+	case 3:
+		c.close(nil) // the tunnel goes away (cleanly)
+	}
+	verifDrain()
+	verifAssert(returned, "C04+C05+C07.cli-blocked-call-is-released")
+	if returned {
+		if phase == 1 && event == 2 {
+			verifAssert(cerr == io.EOF, "C02.cli-ok-close-ends-recv-with-eof")
+		} else {
+			verifAssert(cerr != nil && cerr != io.EOF, "C04+C07.cli-released-call-is-non-ok")
+		}
+	}
+	_, still := c.streams[st.streamID]
+	verifAssert(!still, "C14.cli-blocked-rpc-leaves-table")
+	verifAssert(verifLiveGoroutines() == 0, "C14.cli-blocked-rpc-no-goroutine-left")
+	ccancel()
 }
